@@ -447,7 +447,21 @@ def report_compile(verdict, gen, what, out, m, tag):
     if not by_file:
         verdict.add("C12/%s/%s/does-not-compile/%s" % (gen, what, tag), "generated code does not build: " + out[-1500:], dict(manifest=tag))
         return
+    # the Go package names of the manifest's namespaces (last component)
+    pkgs = set()
+    for t in (m or {}).get("inputDataTypes", []):
+        for d in t.values():
+            pkgs.add(d.get("namespace", "").split(".")[-1])
     for f, msgs in sorted(by_file.items()):
+        # one root cause has a key of its own: an identifier of the generated method (e.g. the parameter `other` of Equals)
+        # shadows the imported package of the same name, so `pkg.Type` inside that method is "not a type"
+        shadowed = set(mm.group(1) for mm in (re.match(r"(\w+)\.\w+ is not a type$", x) for x in msgs) if mm)
+        if shadowed and shadowed <= pkgs and all(re.match(r"(\w+)\.\w+ is not a type$", x) for x in msgs):
+            for pk in sorted(shadowed):
+                verdict.add("C12/%s/%s/package-name-shadowed/%s" % (gen, what, pk),
+                            "%s: a type of package %s is referred to inside a generated method that has a local identifier of the same name: %s" % (f, pk, " ; ".join(msgs[:2])),
+                            dict(manifest=tag, file=f, errors=msgs[:10]))
+            continue
         verdict.add("C12/%s/%s/does-not-compile/%s" % (gen, what, describe(f, m)), "%s: %s" % (f, " ; ".join(msgs[:3])), dict(manifest=tag, file=f, errors=msgs[:10]))
 
 
